@@ -37,7 +37,13 @@ func (m *WalkMismatch) Error() string {
 // Walk drives it and the cursor model over list with ncalls seeded movement calls
 // and compares every observable after each call. seekKey supplies Seek targets.
 func Walk(r *rand.Rand, it iterator.Iterator, list []model.KV, cmp comparer.Comparer, seekKey func() []byte, ncalls int, ws *WalkStats) *WalkMismatch {
-	cur := model.NewCursor(list, cmp)
+	return WalkFrom(r, it, model.NewCursor(list, cmp), true, seekKey, ncalls, ws)
+}
+
+// WalkFrom continues a walk with an existing cursor (an iterator that is held across
+// other activity); fresh says whether the iterator has not been moved yet.
+func WalkFrom(r *rand.Rand, it iterator.Iterator, cur *model.Cursor, fresh bool, seekKey func() []byte, ncalls int, ws *WalkStats) *WalkMismatch {
+	list := cur.L
 	if ws.Calls == nil {
 		ws.Calls = map[string]int{}
 	}
@@ -47,7 +53,7 @@ func Walk(r *rand.Rand, it iterator.Iterator, list []model.KV, cmp comparer.Comp
 		return &WalkMismatch{Step: step, Call: call, What: what, Got: got, Want: want, Calls: calls, ListN: len(list)}
 	}
 	// A fresh iterator is before the first element.
-	if it.Valid() {
+	if fresh && it.Valid() {
 		return fail(0, "new", "fresh iterator reports Valid", "true", "false")
 	}
 	for s := 1; s <= ncalls; s++ {
